@@ -493,15 +493,30 @@ class World:
     def op_filter_out(self, op):
         return self.op_filter(op, "filter_out")
 
-    def op_slice(self, op):
+    def op_slice(self, op, name="slice"):
         h = op["t"]
         f = self.frames[h]
-        return self.run_functional(op, lambda: f.slice(rows=op.get("rows"), cols=op.get("cols")), [h])
+        rows, cols = op.get("rows"), op.get("cols")
+        if op.get("as_array"):
+            # index vectors handed over as ndarrays are arguments too: they must come back unchanged
+            ra = np.array(rows, "int64") if rows is not None else None
+            ca = np.array(cols, "int64") if cols is not None else None
+            r0 = None if ra is None else ra.copy()
+            c0 = None if ca is None else ca.copy()
+
+            def call():
+                try:
+                    return getattr(f, name)(rows=ra, cols=ca)
+                finally:
+                    if (ra is not None and not np.array_equal(ra, r0)) or \
+                            (ca is not None and not np.array_equal(ca, c0)):
+                        self.viol("C06", "mutate", f"C06.mutate|{name}|argument-index-vector-changed",
+                                  f"{name}(rows={rows}, cols={cols}) wrote into the caller's index array")
+            return self.run_functional(op, call, [h])
+        return self.run_functional(op, lambda: getattr(f, name)(rows=rows, cols=cols), [h])
 
     def op_slice_off(self, op):
-        h = op["t"]
-        f = self.frames[h]
-        return self.run_functional(op, lambda: f.slice_off(rows=op.get("rows"), cols=op.get("cols")), [h])
+        return self.op_slice(op, "slice_off")
 
     def op_head(self, op):
         h = op["t"]
@@ -1420,7 +1435,7 @@ class Gen:
         dtype = dtype or r.choice(self.dtypes)
         x = r.random()
         if x < 0.25:
-            plain_scalar = dtype not in ("fixed", "object", "int32", "float32", "bytes", "datetime_s", "timedelta")
+            plain_scalar = dtype not in ("fixed", "object", "int32", "float32", "bytes", "datetime_s", "timedelta", "uint8")
             v = M.gen_values(r, dtype if plain_scalar else "int", 1, 0)[0]
             d = dtype if plain_scalar else "int"
             if d == "datetime":
@@ -1561,6 +1576,10 @@ class Gen:
         f = self.frame(op["t"])
         if r.random() < 0.8 and f.nrow:
             op["rows"] = [r.randrange(f.nrow) for _ in range(r.choice([0, 1, 2, 3]))]
+            if r.random() < 0.3:
+                op["rows"] = [x - f.nrow if r.random() < 0.5 else x for x in op["rows"]]    # negative indices
+        if r.random() < 0.4:
+            op["as_array"] = True
         if r.random() < 0.4 and f.ncol:
             op["cols"] = sorted(set(r.randrange(f.ncol) for _ in range(r.choice([1, 2]))))
         return op
